@@ -323,6 +323,13 @@ def check(model, rep, tier):
                'list_of_features' and core.dotted(used.args[0]) ==
                'self.optional_features')
       rendered_ok = rendered_ok and flows
+      # the rendered collection is the parameter itself: not rebound, filtered
+      # or collapsed on the way to the return
+      ds = tpl.rdefs(lf).reaching(ret[0].value, pname)
+      facts['definitions_of_%s_at_return' % pname] = [
+          d[0] if isinstance(d, tuple) else core.norm(d)[:40] for d in (ds or [])]
+      rendered_ok = rendered_ok and ds is not None and len(ds) == 1 and \
+          isinstance(ds[0], tuple) and ds[0][0] == 'param'
   rep.check(rendered_ok, 'OPT-TOAST', '%s:feature-list' % to_ast.site,
             'the feature set does not render to an expression that evaluates '
             'to the same features (ag__.Feature.X, comma separated, any count)',
